@@ -24,7 +24,8 @@ def run(ctx):
     only = [x for x in os.environ.get("VERIF_ONLY", "").split(",") if x]  # development aid
     ctx.rule = ("behaviour = (index options, field configuration) followed by Depth-1 actions of spec/Schema.tla; "
                 "opts: every configuration of the option domain x every index option pair, created and restarted; "
-                "w1: every (configuration, single write or attribute) pair followed by a restart; sim: seeded "
+                "w1: every single write or attribute of the alphabet on a configuration (all int configurations in "
+                "the thorough tier, seeded configurations otherwise) followed by a restart; sim: seeded "
                 "histories of 6 writes / schema operations / restarts. Each behaviour is replayed under a seeded "
                 "refinement (shards and offsets of the three columns, row ids, instants per quantum, wide values of "
                 "bit depth 63); the driver always ends with a restart. distinct = distinct (behaviour, refinement); "
@@ -51,18 +52,21 @@ def run(ctx):
     # every configuration: create, restart
     go("C08_opts", mode="bfs", timeout=600)
     if thorough:
-        for f in FAMILIES:
-            go("C08_w1_" + f, mode="bfs", timeout=1200)
-        go("C08_sim_int", mode="simulate", num=250, depth=6, timeout=900)
-        go("C08_sim_rest", mode="simulate", num=250, depth=7, timeout=900)
-        go("C08_sim_time", mode="simulate", num=200, depth=7, timeout=900)
+        # every write of the alphabet on every int configuration (BFS) and on `num` seeded
+        # configurations of the other types (a replay costs ~0.1 s: it crosses a server restart)
+        go("C08_w1_int", mode="bfs", timeout=1200)
+        for f, n in [("set", 16), ("mutex", 16), ("time", 16), ("bool", 4)]:
+            go("C08_w1_" + f, mode="simulate", num=n, depth=2, timeout=900)
+        go("C08_sim_int", mode="simulate", num=80, depth=6, timeout=900)
+        go("C08_sim_rest", mode="simulate", num=80, depth=7, timeout=900)
+        go("C08_sim_time", mode="simulate", num=80, depth=7, timeout=900)
     else:
         # a seed-chosen third of the single-write runs: simulation at depth 2 with
         # Sample = FALSE emits every write of the alphabet on `num` seeded configurations
         for f in [["int", "set"], ["time", "bool"], ["mutex", "int"]][ctx.seed % 3]:
-            go("C08_w1_" + f, mode="simulate", num=5, depth=2, timeout=600)
-        go("C08_sim_int", mode="simulate", num=40, depth=6, timeout=600)
-        go("C08_sim_rest" if ctx.seed % 2 == 0 else "C08_sim_time", mode="simulate", num=40, depth=7, timeout=600)
+            go("C08_w1_" + f, mode="simulate", num=3, depth=2, timeout=600)
+        go("C08_sim_int", mode="simulate", num=30, depth=6, timeout=600)
+        go("C08_sim_rest" if ctx.seed % 2 == 0 else "C08_sim_time", mode="simulate", num=25, depth=7, timeout=600)
     ctx.exhaustive = False
-    ctx.notes.append("exhaustive over the option domain (create + restart) in both tiers and over (configuration, one "
-                     "write) in the thorough tier; longer histories are sampled")
+    ctx.notes.append("exhaustive over the option domain (create + restart) in both tiers and over (int configuration, "
+                     "one write) in the thorough tier; other (configuration, write) pairs and longer histories are sampled")
